@@ -32,12 +32,10 @@ class McKayDecomposer(Decomposer):
             return [Rz(g.qubit, Float(rz_angle))]
 
         zxz_decomposition = ZXZDecomposer().decompose(g)
-        zxz_angle = 0.0
-        if len(zxz_decomposition) >= 2 and isinstance(zxz_decomposition[1], BlochSphereRotation):
-            zxz_angle = zxz_decomposition[1].angle
-
-        if abs(zxz_angle - pi / 2) < ATOL:
-            zxz_decomposition[1] = X90(g.qubit)
+        # The X rotation is not necessarily the second gate: identity rotations have been filtered out.
+        rx_indices = [index for index, gate in enumerate(zxz_decomposition) if gate.name == "Rx"]
+        if rx_indices and abs(zxz_decomposition[rx_indices[0]].angle - pi / 2) < ATOL:  # type: ignore[attr-defined]
+            zxz_decomposition[rx_indices[0]] = X90(g.qubit)
             return zxz_decomposition
 
         # McKay decomposition
